@@ -1013,12 +1013,21 @@ func doInEval(env Env, lhs types.EntityUID, rhs types.Value) (types.Value, error
 		return types.Boolean(entityInOne(env, lhs, rhsv)), nil
 	case types.Set:
 		query := mapset.Make[types.EntityUID](rhsv.Len())
+		// The set is iterated in map order: when several members are not entities, report the
+		// same one (the smallest message) every time.
+		var firstErr error
 		for rhv := range rhsv.All() {
 			e, err := ValueToEntity(rhv)
 			if err != nil {
-				return zeroValue(), err
+				if firstErr == nil || err.Error() < firstErr.Error() {
+					firstErr = err
+				}
+				continue
 			}
 			query.Add(e)
+		}
+		if firstErr != nil {
+			return zeroValue(), firstErr
 		}
 		return types.Boolean(entityInSet(env, lhs, query)), nil
 	}
